@@ -3,10 +3,11 @@
    vectors, for all rows of every length (over R).  Chain: L_sparse (translated sparse source = model merge/metric, iteration budget not
    exhausted) ; P_C13 (model sparse metric = model dense metric on densified vectors) ; C13_dense_is_C12 ; L_distances (model dense
    metric = translated dense source).  Linked this way: euclidean, manhattan, chebyshev, hamming, jaccard, cosine, correlation (the
-   current, repaired text of sparse_correlation). *)
+   current, repaired text of sparse_correlation), ll_dirichlet (L_sparse_lld ; P_C13.C13_ll_dirichlet ; L_distances.src_ll_dirichlet_eq;
+   under the hypotheses of C13_ll_dirichlet: no empty row, stored values > 0.9, coordinate-wise products 0 or > 0.9). *)
 From Coq Require Import List ZArith Bool Arith Lia Reals Lra.
-From UV Require Import Num PyPrim PyPrimLemmas M_metrics T_link M_sparse T_sparse T_sparse_metrics T_sparse_corr T_sparse_link P_C13.
-From UVS Require Import Src_sparse L_sparse Src_distances L_distances.
+From UV Require Import Num PyPrim PyPrimLemmas M_metrics T_link M_sparse M_sparse_lld T_metrics_real T_sparse T_sparse_metrics T_sparse_corr T_sparse_link T_sparse_lld P_C13.
+From UVS Require Import Src_sparse L_sparse L_sparse_lld Src_distances L_distances.
 Import ListNotations.
 Local Open Scope R_scope.
 
@@ -80,7 +81,26 @@ Proof.
   destruct (C13_dense_is_C12 da db Lab) as (_ & _ & _ & _ & _ & _ & _ & _ & _ & _ & _ & _ & _ & _ & _ & _ & E & _). fold da db. rewrite E.
   rewrite (src_correlation_eq RNum da db Lab). reflexivity.
 Qed.
+
+(* ll_dirichlet: translated sparse_ll_dirichlet of the current sparse.py = translated ll_dirichlet of the current distances.py on the
+   densified rows (pi / int() read as the real PI / truncation: RExt), on the input class of P_C13.C13_ll_dirichlet *)
+Corollary C13_src_ll_dirichlet : a <> [] -> b <> [] -> lld_big a -> lld_big b -> lld_prod a b ->
+  src_sparse_ll_dirichlet RNum (RPy RExt) (zi RNum a) (vals RNum a) (zi RNum b) (vals RNum b) = (src_ll_dirichlet RNum (RPy RExt) da db, true).
+Proof.
+  intros Na Nb Ha Hb Hp. rewrite (src_sparse_ll_dirichlet_RExt a b). rewrite (C13_ll_dirichlet RExt a b n Ca Cb Ba Bb Na Nb Ha Hb Hp).
+  fold da db. rewrite (src_ll_dirichlet_eq RExt (fun x => eq_refl) da db Lab). reflexivity.
+Qed.
 End K.
+
+(* count data (every stored value >= 1, no empty row) is in that class *)
+Theorem C13_src_ll_dirichlet_counts (a b : rvec) (n : nat) :
+  canonical a -> canonical b -> below n a -> below n b -> a <> [] -> b <> [] ->
+  Forall (fun e => 1 <= snd e) a -> Forall (fun e => 1 <= snd e) b ->
+  src_sparse_ll_dirichlet RNum (RPy RExt) (zi RNum a) (vals RNum a) (zi RNum b) (vals RNum b)
+  = (src_ll_dirichlet RNum (RPy RExt) (densify RNum n a) (densify RNum n b), true).
+Proof.
+  intros Ca Cb Ba Bb Na Nb Ha Hb. apply (C13_src_ll_dirichlet a b n Ca Cb Ba Bb Na Nb); auto using counts_big, counts_prod.
+Qed.
 
 (* the hypotheses on the two helpers are satisfiable for every pair of rows: the model's own merges *)
 Theorem C13_src_correlation_model (a b : rvec) (n : nat) :
